@@ -162,6 +162,8 @@ class Translator:
         # (and so is every function that calls it) instead of failing the whole run, so that a change in one
         # function cannot disturb the checks of properties that do not depend on it.
         self.failed = {}       # 'Module.fn' -> message (this arithmetic)
+        self.failed_methods = set()   # (class, method) left out
+        self.failed_consts = set()    # (module, constant) left out
         self.skip = set(config.get('_skip', ()))   # 'Module.fn' excluded by the caller (its Lean text did not compile)
 
     # ------------------------------------------------------------------ helpers
@@ -319,7 +321,17 @@ class Translator:
         for cname in mcfg.get('classes', []):
             body.append(self.emit_class(mod, cname, arith))
             for mname in mcfg.get('methods', {}).get(cname, []):
-                body.append(self.emit_method(mod, cname, mname, arith))
+                mkey = f'{mod.leanname}.{cname}.{mname}'
+                try:
+                    if mkey in self.skip:
+                        raise TranslateError('excluded: the Lean text generated for it did not compile')
+                    body.append(self.emit_method(mod, cname, mname, arith))
+                except TranslateError as e:
+                    # a method outside the translated subset: left out together with everything that uses the operator
+                    self.failed[mkey] = str(e)
+                    self.failed[f'{mod.leanname}.{cname}.{self.METHOD_NAMES.get(mname, mname.strip("_"))}'] = str(e)
+                    self.failed_methods.add((cname, mname))
+                    body.append(f'-- NOT TRANSLATED: {cname}.{mname}: ' + str(e).replace('\n', ' ') + '\n')
         # constants and functions
         wanted_consts = list(mcfg.get('consts', []))
         auto = mcfg.get('consts_auto', [])
@@ -372,7 +384,18 @@ class Translator:
         for n in order:
             node = nodes[n]
             if isinstance(node, ast.Assign):
-                body.append(self.emit_const(mod, n, node.value, arith))
+                ckey = f'{mod.leanname}.{n}'
+                try:
+                    body.append(self.emit_const(mod, n, node.value, arith))
+                except TranslateError as e:
+                    if n in mcfg.get('consts', []):
+                        raise      # a base constant (ellipsoids, projections): everything depends on it
+                    self.failed[ckey] = str(e)
+                    self.failed_consts.add((modname, n))
+                    for lst in catalogue.values():
+                        if n in lst:
+                            lst.remove(n)
+                    body.append(f'-- NOT TRANSLATED: {n}: ' + str(e).replace('\n', ' ') + '\n')
             else:
                 key = f'{mod.leanname}.{n}'
                 if key in self.skip:
@@ -687,6 +710,8 @@ def emit_dispatch(tr, config):
                 sigs[f'{mod.leanname}.{wname}'] = {'params': kinds, 'tokens': i, 'raising': tr.is_raising(mod, fname)}
         for cname, mnames in mcfg.get('methods', {}).items():
             for mname in mnames:
+                if f'{mod.leanname}.{cname}.{mname}' in tr.failed:
+                    continue   # (its Lean name is recorded as failed too, so the tie leaves it out)
                 lname = Translator.METHOD_NAMES.get(mname, mname.strip('_'))
                 mk = config.get('classes', {}).get(cname, {}).get('method_param_kinds', {}).get(mname, {})
                 cls = mod.classes[cname]
@@ -922,6 +947,8 @@ class Env:
                 if g[2] not in self.tr.mcfg_for(gm.modname, self.arith).get('consts', []) and \
                         g[2] not in getattr(self.tr, 'auto_consts', {}).get(gm.modname, ()):
                     self.err(node, f'global constant {n} is not a translation target')
+                if (gm.modname, g[2]) in self.tr.failed_consts:
+                    self.err(node, f'use of untranslated constant {n}')
                 # kind of the constant
                 val = gm.consts[g[2]]
                 k = self.const_kind(gm, val)
@@ -956,6 +983,8 @@ class Env:
                     return (f'(-{e})', Kind.NUM)
                 e, k = self.expr(node.operand, selfname, selffields)
                 if isinstance(k, tuple) and k[0] == 'struct':
+                    if (k[1], '__neg__') in self.tr.failed_methods:
+                        raise TranslateError(f'{self.mod.path}:{node.lineno}: in {self.fname}: use of untranslated method {k[1]}.__neg__')
                     return (f'({k[1]}.neg {e})', k)
                 return (f'(-{self.as_num(e, k, node)})', Kind.NUM)
             if isinstance(node.op, ast.UAdd):
@@ -1028,6 +1057,8 @@ class Env:
         a, ka = self.expr(node.left, selfname, selffields)
         b, kb = self.expr(node.right, selfname, selffields)
         if isinstance(ka, tuple) and ka[0] == 'struct' and isinstance(node.op, ast.Add):
+            if (ka[1], '__add__') in self.tr.failed_methods:
+                raise TranslateError(f'{self.mod.path}:{node.lineno}: in {self.fname}: use of untranslated method {ka[1]}.__add__')
             return (f'({ka[1]}.add {a} {b})', ka)
         a = self.as_num(a, ka, node)
         b = self.as_num(b, kb, node)
